@@ -578,6 +578,13 @@ def jobs(tier):
                         ksa, ksb = pat(ka, x), pat(kb, y)
                         if op == 'matmul':
                             ksa, ksb = [0] * len(ksa), ([20] if len(ksb) == 1 else [0, 20][:len(ksb)])
+                        both_poly = (ka, kb) == ('PauliPolynomial', 'PauliPolynomial') and op in ('add', 'sub')
+                        if both_poly and thorough and (N == 2 or (x, y) == (0, 1)):
+                            # two two-term polynomials with mixed exponents: 730 unique()-paths of 80-bit arithmetic each; measured
+                            # beyond 2700 s per job -> kept as a stretch obligation only
+                            J.append(dict(harness=B, params=dict(N=N, op=op, ka=ka, kb=kb, ksa=ksa, ksb=ksb), timeout_s=300, wall_s=600, claimed=False,
+                                          cost=1, max_paths=20000, label='stretch:h_binary[N=%d,%s,poly,poly,%s,%s]' % (N, op, ksa, ksb)))
+                            continue
                         J.append(dict(harness=B, params=dict(N=N, op=op, ka=ka, kb=kb, ksa=ksa, ksb=ksb), timeout_s=900,
                                       cost=40 if heavy else 5, max_paths=20000))
         for kind in KINDS:
